@@ -39,6 +39,7 @@ package main
 //@   assert_call[C19] (*gopoet.FuncSpec).SetVariadic : call_options_are_variadic: arg1
 //@   ensures[C19] a_file_with_services_is_written_once: len(lastresult("(*desc.FileDescriptor).GetServices")) > 0 ==> calls("gopoet.WriteGoFile") == 1 && result == lastresult("gopoet.WriteGoFile")
 //@   ensures[C19] a_file_without_services_emits_nothing: calls("(*desc.FileDescriptor).GetServices") >= 1 && !called("gopoet.WriteGoFile") ==> result == nil
+//@   assert_call[C19] gopoet.NewGoFile : in_the_package_of_the_proto_file: arg1 == pkg.ImportPath && arg2 == pkg.Name && arg0 == lastresult("path.Base")
 //@   assert_call[C19] gopoet.WriteGoFile : this_file_to_its_own_output: arg0 == lastresult("(*plugins.CodeGenResponse).OutputFile") && arg1 == f
 //@   loop loop#1 invariant[C19] one_rendering_per_template_use: calls("(*gopoet.FuncSpec).RenderCode") == calls("(templates).makeTemplate")
 //@   loop loop#2 invariant[C19] one_rendering_per_template_use: calls("(*gopoet.FuncSpec).RenderCode") == calls("(templates).makeTemplate")
